@@ -418,6 +418,214 @@ def runInvocation (w : Wiring) (base : Config) (rg : ReadGroupOpt) (hist : List 
   let cfg := base.withReadGroup (effectiveReadGroup rg (hist.map Prod.snd))
   (runHistory w cfg (initState cfg) hist).1
 
+/-! ## Parsing the experiment description (src/input_data_storage.py)
+
+`InputDataStorage.get_samples_from_yaml` / `get_samples_from_file` turn the entries of a YAML / list file into
+one `SampleData` per experiment.  The parsers are loops with locals that survive from one entry to the next
+(`experiment_names`, `current_index`, `readable_names_dict`, `current_sample…`), so "an experiment gets exactly
+the fields of its own entry" is a statement about those loops. -/
+
+/-- a long-read file as the parser sees it: the normalised path and the label derived from the file name
+    (`os.path.splitext(os.path.basename(fname))[0]`, a function of the path alone) -/
+structure InFile where
+  path : String
+  stem : String
+  deriving DecidableEq, Repr
+
+/-- one experiment entry of the YAML list (after the `data format` entry); `none` = key absent -/
+structure YamlEntry where
+  name : Option String
+  files : Option (List InFile)       -- 'long read files'
+  labels : Option (List String)      -- 'labels'
+  illumina : Option (List String)    -- 'illumina bam'
+  deriving DecidableEq, Repr
+
+/-- what `SampleData` is built from -/
+structure ParsedSample where
+  name : String
+  libs : List (List String)               -- file_list (a library = a list of files)
+  readable : List (String × String)       -- readable_names_dict[name] in insertion order: file → label
+  illumina : Option (List String)
+  deriving DecidableEq, Repr
+
+abbrev NameDict := List (String × List (String × String))
+
+def dictGet (d : NameDict) (k : String) : List (String × String) :=
+  match d.lookup k with
+  | some l => l
+  | none => []
+
+def dictSet (d : NameDict) (k : String) (v : List (String × String)) : NameDict :=
+  if d.any (fun p => p.1 == k) then d.map (fun p => if p.1 == k then (k, v) else p) else d ++ [(k, v)]
+
+/-- the loop over the files of one entry: `if fname in readable_names_dict[name]: exit(-2)`, else register the label -/
+def addFiles : List (String × String) → List (String × String) → Option (List (String × String))
+  | cur, [] => some cur
+  | cur, (path, label) :: rest =>
+    if cur.any (fun p => p.1 == path) then none else addFiles (cur ++ [(path, label)]) rest
+
+/-- locals of the parser loops -/
+structure ParseSt where
+  names : List String                                                    -- experiment_names
+  index : Nat                                                            -- current_index
+  dict : NameDict                                                        -- readable_names_dict
+  acc : List (String × List (List String) × Option (List String))        -- sample_files / illumina_bam, zipped
+  deriving DecidableEq, Repr
+
+def ParseSt.init : ParseSt := ⟨[], 0, [], []⟩
+
+/-- (path, label) pairs of an entry; `none` = the number of labels differs from the number of files -/
+def labelled (fs : List InFile) : Option (List String) → Option (List (String × String))
+  | none => some (fs.map (fun f => (f.path, f.stem)))
+  | some ls => if ls.length != fs.length then none else some ((fs.map InFile.path).zip ls)
+
+/-- one iteration of `for sample in con[1:]`; `none` = the parser exits with an error -/
+def yamlStep (pfx : String) (st : ParseSt) (e : YamlEntry) : Option ParseSt :=
+  let auto := pfx ++ toString st.index
+  let nm0 := match e.name with
+    | some n => n
+    | none => auto
+  if st.names.contains nm0 && nm0 == auto then none                       -- "Change experiment name … and rerun"
+  else
+    let nm := if st.names.contains nm0 then auto else nm0                 -- duplicate folder prefix: renamed
+    match e.files with
+    | none => none                                                        -- "does not contain any files"
+    | some fs =>
+      match labelled fs e.labels with
+      | none => none
+      | some pairs =>
+        match addFiles (dictGet st.dict nm) pairs with
+        | none => none                                                    -- file used twice in one experiment
+        | some d' =>
+          if fs.isEmpty then some { st with index := st.index + 1, dict := dictSet st.dict nm d' }
+          else some { names := st.names ++ [nm], index := st.index + 1, dict := dictSet st.dict nm d',
+                      acc := st.acc ++ [(nm, fs.map (fun f => [f.path]), e.illumina)] }
+
+def yamlLoop (pfx : String) : ParseSt → List YamlEntry → Option ParseSt
+  | st, [] => some st
+  | st, e :: es =>
+    match yamlStep pfx st e with
+    | none => none
+    | some st' => yamlLoop pfx st' es
+
+/-- `InputDataStorage.__init__`: one `SampleData` per parsed experiment, labels looked up by the final name -/
+def finishParse (st : ParseSt) : List ParsedSample :=
+  st.acc.map (fun t => ⟨t.1, t.2.1, dictGet st.dict t.1, t.2.2⟩)
+
+/-- `get_samples_from_yaml` (+ the construction of the samples) -/
+def parseYaml (pfx : String) (entries : List YamlEntry) : Option (List ParsedSample) :=
+  (yamlLoop pfx ParseSt.init entries).map finishParse
+
+/-- what an entry with the explicit name `n` yields *by itself*: `none` = error, `some none` = no files (skipped) -/
+def parseOwnYaml (e : YamlEntry) (n : String) : Option (Option ParsedSample) :=
+  match e.files with
+  | none => none
+  | some fs =>
+    match labelled fs e.labels with
+    | none => none
+    | some pairs =>
+      match addFiles [] pairs with
+      | none => none
+      | some d => if fs.isEmpty then some none else some (some ⟨n, fs.map (fun f => [f.path]), d, e.illumina⟩)
+
+/-- every entry parsed by itself, results concatenated in file order (`none` as soon as one entry is an error) -/
+def parseEachOwn : List (YamlEntry × String) → Option (List ParsedSample)
+  | [] => some []
+  | (e, n) :: rest =>
+    match parseOwnYaml e n with
+    | none => none
+    | some r =>
+      match parseEachOwn rest with
+      | none => none
+      | some rs => some (r.toList ++ rs)
+
+/-! ### list files (`--bam_list` / `--fastq_list`) -/
+
+/-- a line of a list file -/
+inductive ListLine where
+  | header (name : String)                                    -- `#name`, or a blank line (name = "")
+  | files (fs : List InFile) (label : Option String)          -- `file [file …][:label]`
+  deriving DecidableEq, Repr
+
+structure ListSt where
+  st : ParseSt
+  cur : List (List String)          -- current_sample
+  curName : String                  -- current_sample_name
+  deriving DecidableEq, Repr
+
+/-- `sample_files.append(current_sample)` … when the current sample has files -/
+def ListSt.flush (s : ListSt) : ParseSt :=
+  if s.cur.isEmpty then s.st
+  else { s.st with names := s.st.names ++ [s.curName], acc := s.st.acc ++ [(s.curName, s.cur, none)] }
+
+/-- `readable_name = vals[-1] if len(vals) > 1 else stem(files[0])`: one label for all files of the line -/
+def lineLabel (fs : List InFile) : Option String → String
+  | some l => l
+  | none => match fs.head? with
+    | some f => f.stem
+    | none => ""
+
+def listStep (pfx : String) (s : ListSt) : ListLine → Option ListSt
+  | .header nm =>
+    let st := s.flush
+    let auto := pfx ++ toString st.index
+    let nm0 := if nm.isEmpty then auto else nm
+    if st.names.contains nm0 && nm0 == auto then none
+    else
+      let nm1 := if st.names.contains nm0 then auto else nm0
+      some { st := { st with index := st.index + 1 }, cur := [], curName := nm1 }
+  | .files fs label =>
+    match addFiles (dictGet s.st.dict s.curName) (fs.map (fun f => (f.path, lineLabel fs label))) with
+    | none => none
+    | some d' => some { s with st := { s.st with dict := dictSet s.st.dict s.curName d' },
+                               cur := s.cur ++ [fs.map InFile.path] }
+
+def listLoop (pfx : String) : ListSt → List ListLine → Option ListSt
+  | s, [] => some s
+  | s, l :: ls =>
+    match listStep pfx s l with
+    | none => none
+    | some s' => listLoop pfx s' ls
+
+/-- `get_samples_from_file` (+ the construction of the samples); the first sample is called `pfx` unless the
+    file starts with a header line -/
+def parseList (pfx : String) (lines : List ListLine) : Option (List ParsedSample) :=
+  (listLoop pfx ⟨ParseSt.init, [], pfx⟩ lines).map (fun s => finishParse s.flush)
+
+def ListLine.isFiles : ListLine → Bool
+  | .files _ _ => true
+  | .header _ => false
+
+/-- the file lines of one experiment parsed by themselves: labels registered so far, libraries so far -/
+def blockOwn : List (String × String) → List (List String) → List ListLine →
+    Option (List (String × String) × List (List String))
+  | d, c, [] => some (d, c)
+  | d, c, .files fs label :: rest =>
+    match addFiles d (fs.map (fun f => (f.path, lineLabel fs label))) with
+    | none => none
+    | some d' => blockOwn d' (c ++ [fs.map InFile.path]) rest
+  | _, _, .header _ :: _ => none
+
+/-- a `#name` header with its file lines, by itself: `none` = error, `some none` = no files (skipped) -/
+def ownBlock (n : String) (lines : List ListLine) : Option (Option ParsedSample) :=
+  match blockOwn [] [] lines with
+  | none => none
+  | some (d, c) => if c.isEmpty then some none else some (some ⟨n, c, d, none⟩)
+
+def parseEachOwnBlock : List (String × List ListLine) → Option (List ParsedSample)
+  | [] => some []
+  | (n, lines) :: rest =>
+    match ownBlock n lines with
+    | none => none
+    | some r =>
+      match parseEachOwnBlock rest with
+      | none => none
+      | some rs => some (r.toList ++ rs)
+
+/-- the description file made of the blocks -/
+def renderBlocks (blocks : List (String × List ListLine)) : List ListLine :=
+  blocks.flatMap (fun b => ListLine.header b.1 :: b.2)
+
 /-! ## combine_counts -/
 
 /-- a per-experiment table: (feature id, value) rows in file order -/
